@@ -255,11 +255,41 @@ func createCompiledRouteHandler(route *ast.Route, bytecode []byte, wsHub *websoc
 			return json.NewEncoder(ctx.ResponseWriter).Encode(body)
 		}
 
+		// A declared return type is enforced here as it is by the interpreter
+		// (ExecuteRoute): data violating it is a server fault, not a response.
+		if err := validateCompiledReturn(route, result); err != nil {
+			return writeInternalError(ctx, err)
+		}
+
 		// Set response
 		ctx.StatusCode = http.StatusOK
 		ctx.ResponseWriter.Header().Set("Content-Type", "application/json")
 		return json.NewEncoder(ctx.ResponseWriter).Encode(result)
 	}
+}
+
+// validateCompiledReturn checks the value a compiled route produced against
+// the route's declared return type, mirroring the interpreter's check in
+// ExecuteRoute. The value is examined in the form the client would receive:
+// its JSON encoding, decoded into plain Go values.
+func validateCompiledReturn(route *ast.Route, result vm.Value) error {
+	if route.ReturnType == nil {
+		return nil
+	}
+	encoded, err := json.Marshal(result)
+	if err != nil {
+		return fmt.Errorf("return value of route %s %s cannot be encoded: %v", route.Method, route.Path, err)
+	}
+	var decoded interface{}
+	if err := json.Unmarshal(encoded, &decoded); err != nil {
+		return fmt.Errorf("return value of route %s %s cannot be decoded: %v", route.Method, route.Path, err)
+	}
+	checker := interpreter.NewTypeChecker()
+	checker.SetTypeDefs(compiledTypeDefs)
+	if err := checker.CheckType(decoded, route.ReturnType); err != nil {
+		return fmt.Errorf("return type mismatch in route %s %s: %v", route.Method, route.Path, err)
+	}
+	return nil
 }
 
 // unwrapStatusResult detects the compiler's status marker object in a VM
